@@ -32,6 +32,7 @@ type FuncReport struct {
 func (P *Program) VerifyFunc(fn *ssa.Function, ct *Contract, full bool, pathCap int, prop string) (rep *FuncReport) {
 	x := &Exec{P: P, fn: fn, ct: ct, full: full, inputs: map[string]string{}, params: map[string]Val{}, pathCap: pathCap,
 		closedChain: map[string]*Term{}, prop: prop}
+	x.argTypes = map[string]types.Type{}
 	x.extUsed = map[string]bool{}
 	x.uncontracted = map[string]bool{}
 	x.trustedUsed = map[string]bool{}
